@@ -880,16 +880,16 @@ func (h *H) reconcile(id recID, budget int) {
 		h.crash.arm(h.r.Intn(2))
 	}
 	if h.interf && budget < 0 && !nested {
-		if h.faults && h.r.Intn(12) == 0 {
+		if h.faults && h.r.Intn(6) == 0 {
 			// a store read of this invocation fails
 			h.crash.mu.Lock()
 			h.crash.readFault = h.r.Intn(3)
 			h.crash.mu.Unlock()
-		} else if h.faults && h.r.Intn(12) == 0 {
+		} else if h.faults && h.r.Intn(5) == 0 {
 			// a store write of this invocation fails (the store is briefly unavailable): the invocation has to give up
 			// there - in particular it must not record as done what it could not write
 			h.crash.mu.Lock()
-			h.crash.writeFault = h.r.Intn(3)
+			h.crash.writeFault = h.r.Intn(3) % 2 // the first write twice as often: most invocations make one or two
 			h.crash.mu.Unlock()
 		} else if _, holding := h.holdSucc[id.a]; (id.kind == "prop" && (holding || h.r.Intn(2) == 0)) || (id.kind == "cfg" && h.r.Intn(2) == 0) {
 			// while the device call of this invocation (if it makes one) is in flight, another invocation about the
